@@ -740,7 +740,18 @@ impl<T: PPGEvaluatorStrategy> PPGEvaluator<T> {
                             _ => {
                                 //if it's from a multi-output job that was producing different
                                 //stuff before,
-                                filter_if_renamed(job_id_a) && filter_if_renamed(job_id_b)
+                                // (the record of what b read goes with b. If only its producer a
+                                // has been superseded by a job of another name, b is still judged
+                                // against this record until it has been brought up to date
+                                // under the new name.)
+                                filter_if_renamed(job_id_b)
+                                    && (filter_if_renamed(job_id_a)
+                                        || match node_idx_b {
+                                            Some(idx_b) => {
+                                                self.jobs[*idx_b].history_output.is_none()
+                                            }
+                                            None => true,
+                                        })
                             }
                         }
                     } else {
@@ -1966,10 +1977,20 @@ impl<T: PPGEvaluatorStrategy> PPGEvaluator<T> {
                             "Should have had history for it, if it was validated?!".to_string(),
                         )
                     })?;
-                let my_historical_input = history.get(&format!(
-                    "{}!!!{}",
-                    &jobs[upstream_idx].job_id, &jobs[node_idx].job_id
-                ));
+                let my_historical_input = history
+                    .get(&format!(
+                        "{}!!!{}",
+                        &jobs[upstream_idx].job_id, &jobs[node_idx].job_id
+                    ))
+                    .or_else(|| {
+                        // the upstream may be a multi-output job that was renamed
+                        Self::try_finding_renamed_multi_output_job(
+                            &jobs[upstream_idx].job_id,
+                            &jobs[node_idx].job_id,
+                            history,
+                        )
+                        .and_then(|x| history.get(&format!("{}!!!{}", x, &jobs[node_idx].job_id)))
+                    });
                 match my_historical_input {
                     None => {
                         //no history, so certainly invalidated
